@@ -29,6 +29,7 @@ type recWriter struct {
 	failAt   int
 	closed   bool
 	failWith error // what the failing call returns (errW when nil)
+	failN    int   // ... and the count it reports with the error (a sink that took the packet and failed to flush it reports 188)
 }
 
 // c18WFails: error values a failing packet writer may return (a writer may fail with io.EOF too: that is the
@@ -48,9 +49,9 @@ func (w *recWriter) WritePacket(p *packet.Packet) (int, error) {
 	w.calls = append(w.calls, append([]byte(nil), p[:]...))
 	if w.failAt != 0 && len(w.calls) == w.failAt {
 		if w.failWith != nil {
-			return 0, w.failWith
+			return w.failN, w.failWith
 		}
-		return 0, errW
+		return w.failN, errW
 	}
 	return packet.PacketSize, nil
 }
@@ -160,7 +161,7 @@ func (c18) Gen(tier string, seed int64, emit func([]Ev)) {
 		}
 		data := c18Stream(r, npk*188+extra)
 		if i%2 == 0 {
-			emit([]Ev{{"op": "write", "adapter": ad, "data": B(data), "fail_at": failAt, "wfail_kind": c18WFailKinds[r.Intn(2)*r.Intn(len(c18WFailKinds))]}})
+			emit([]Ev{{"op": "write", "adapter": ad, "data": B(data), "fail_at": failAt, "wfail_kind": c18WFailKinds[r.Intn(2)*r.Intn(len(c18WFailKinds))], "wfail_n": []int{0, 0, 57, 188}[r.Intn(4)]}})
 			continue
 		}
 		// a fragmentation of data into reader results
@@ -241,7 +242,7 @@ func (c18) Gen(tier string, seed int64, emit func([]Ev)) {
 		if r.Intn(2) == 0 {
 			kind = c18FailKinds[r.Intn(len(c18FailKinds))]
 		}
-		emit([]Ev{{"op": "readfrom", "adapter": ad, "script": script, "fail_at": failAt, "via": via, "zero_reads": zero, "fail_kind": kind, "wfail_kind": c18WFailKinds[r.Intn(2)*r.Intn(len(c18WFailKinds))]}})
+		emit([]Ev{{"op": "readfrom", "adapter": ad, "script": script, "fail_at": failAt, "via": via, "zero_reads": zero, "fail_kind": kind, "wfail_kind": c18WFailKinds[r.Intn(2)*r.Intn(len(c18WFailKinds))], "wfail_n": []int{0, 0, 57, 188}[r.Intn(4)]}})
 	}
 }
 
@@ -267,7 +268,8 @@ func c18Err(err error, fail ...error) string {
 
 func (c18) Exec(h []Ev) []Ev {
 	for _, e := range h {
-		w := &recWriter{failAt: GI(e["fail_at"]), failWith: c18WFail(GS(e["wfail_kind"]))}
+		w := &recWriter{failAt: GI(e["fail_at"]), failWith: c18WFail(GS(e["wfail_kind"])), failN: GI0(e["wfail_n"])}
+		e["wfail_n"] = w.failN
 		wr, rf := c18Adapter(GS(e["adapter"]), w)
 		e["panic"] = guard(func() {
 			switch GS(e["op"]) {
@@ -355,7 +357,7 @@ func (c18) Table(rows []Ev, tier string, seed int64, rep *TableReport) {
 				err  string
 			}{expand(m["data"]), GS(m["err"])})
 		}
-		w := &recWriter{failAt: GI(row["fail_at"]), failWith: c18WFail(c18WFailKinds[(ri/40)%len(c18WFailKinds)])}
+		w := &recWriter{failAt: GI(row["fail_at"]), failWith: c18WFail(c18WFailKinds[(ri/40)%len(c18WFailKinds)]), failN: []int{0, 0, 57, 188}[(ri/7)%4]}
 		_, rf := c18Adapter(c18Adapters[ri%4], w)
 		var n int64
 		var err error
@@ -372,7 +374,7 @@ func (c18) Table(rows []Ev, tier string, seed int64, rep *TableReport) {
 			reason = "replay-delivery-count"
 		case c18Err(err, sr.failWith, w.failWith) != GS(row["err"]):
 			reason = fmt.Sprintf("replay-result-%s-expected-got-%s", GS(row["err"]), c18Err(err, sr.failWith, w.failWith))
-		case int(n) != GI(row["n"])*scale:
+		case int(n) != GI(row["n"])*scale && !(w.failN > 0 && GS(row["err"]) == "writer"): // the count of a failing call that reports bytes is not defined by the property
 			reason = "replay-byte-count"
 		}
 		if reason == "" {
